@@ -59,6 +59,66 @@ func consistentOrders(ft, fp, tp int) bool {
 	return false
 }
 
+// dateKeyOracle extends the scenario's order of whole dates to sortable keys: chronological order is the
+// lexicographic order of (year, month, day), so a key that packs exactly fields #0, #1, #2 of one date against the
+// same fields of another (lexkey terms of the evaluator's packed comparison) is ordered like the dates — provided
+// the Date struct declares year, month, day in that order (enabled).
+type dateKeyOracle struct {
+	*ordOracle
+	enabled bool
+}
+
+func (o dateKeyOracle) Cmp(a, b pred.Val) (int, bool) {
+	if r, ok := o.ordOracle.Cmp(a, b); ok {
+		return r, true
+	}
+	base := func(v pred.Val) (string, bool) {
+		t, ok := v.(pred.Term)
+		if !ok || t.Fn != "lexkey" || len(t.Args) != 3 {
+			return "", false
+		}
+		name := ""
+		for k, f := range t.Args {
+			s, ok := f.(pred.Sym)
+			suffix := fmt.Sprintf(".#%d", k)
+			if !ok || !strings.HasSuffix(s.Name, suffix) {
+				return "", false
+			}
+			b := strings.TrimSuffix(s.Name, suffix)
+			if k > 0 && b != name {
+				return "", false
+			}
+			name = b
+		}
+		return name, true
+	}
+	if !o.enabled {
+		return 0, false
+	}
+	x, ok1 := base(a)
+	y, ok2 := base(b)
+	if !ok1 || !ok2 {
+		return 0, false
+	}
+	if x == y {
+		return 0, true
+	}
+	return o.ordOracle.Cmp(pred.Sym{Name: x}, pred.Sym{Name: y})
+}
+
+// dateFieldsInOrder: date.Date is struct{year; month; day} in that order.
+func dateFieldsInOrder(e *Env) bool {
+	sp := e.P.ByName["date"]
+	if sp == nil || sp.Type("Date") == nil {
+		return false
+	}
+	st, ok := sp.Type("Date").Type().Underlying().(*types.Struct)
+	if !ok || st.NumFields() != 3 {
+		return false
+	}
+	return st.Field(0).Name() == "year" && st.Field(1).Name() == "month" && st.Field(2).Name() == "day"
+}
+
 func ruleC15Table(e *Env) {
 	const rule = "C15.table"
 	fft := e.Fn(rule, "date", "FilterFromTo")
@@ -118,7 +178,7 @@ func ruleC15Table(e *Env) {
 								construct += " (same pointer)"
 							}
 							o := &ordOracle{ord: map[string]int{"from|to": ft, "from|p": fp, "to|p": tp, "from|from": 0, "to|to": 0}}
-							ev := &pred.Evaluator{Prog: e.P.SSA, Oracle: o, Summaries: sums}
+							ev := &pred.Evaluator{Prog: e.P.SSA, GlobalInit: e.globalTables(), Oracle: dateKeyOracle{o, dateFieldsInOrder(e)}, Summaries: sums}
 							var fromV, toV pred.Val = pred.Ptr{}, pred.Ptr{}
 							if !fromNil {
 								fromV = pred.Ptr{Cell: &pred.Cell{V: pred.Sym{Name: "from"}, Name: "from"}}
